@@ -4,6 +4,7 @@ every base `2..36`, every value of the type, every buffer / input string.
 -/
 import TetlProofs.C10.Parse
 import TetlProofs.C10.Strto
+import TetlProofs.C10.Unchecked
 import TetlProofs.C10.SpecMathlib
 namespace Tetl.C10.Props
 open Tetl Tetl.C10
@@ -191,6 +192,50 @@ theorem overflow_exact_auto (t : IntTy) (h8 : 8 ≤ t.bits) (ws : Bool) (s : Lis
     ∃ r, toInteger t ws s 0 = .ok r ∧ (r.err = .overflow ↔ ∃ n, Spec.parseAuto t ws s = .range n) := by
   refine ⟨_, toInteger_auto_eq t h8 ws s hbytes, ?_⟩
   cases Spec.parseAuto t ws s <;> simp [TIRes.ofSpec, TIRes.mkErr]
+
+/-- `check_overflow = false` (`nop_overflow_checker`, a public option of `strings::to_integer`; no wrapper uses
+    it): for every input whose digits denote a representable value, and for every input without digits, the
+    unchecked configuration reads only inside the string, overflows no intermediate and returns exactly what
+    the checked one returns.  The excluded class (`Spec.parse = .range _`) is the one the caller of the option
+    promises not to pass; there the result wraps or, for `int`/`long`, is undefined behaviour
+    (`toInteger_unchecked_outside`). -/
+theorem toInteger_unchecked_eq (t : IntTy) (h8 : 8 ≤ t.bits) (ws : Bool) (s : List Nat) (hbytes : ∀ c ∈ s, c < 256)
+    (b : Nat) (hb : 2 ≤ b ∧ b ≤ 36) (hnr : ∀ n, Spec.parse t ws s b ≠ .range n) :
+    toIntegerNC t ws s b = .ok (TIRes.ofSpec (Spec.parse t ws s b)) := by
+  apply toIntegerNC_of t ws s b _ (toInteger_eq t h8 ws s hbytes b hb)
+  cases h : Spec.parse t ws s b with
+  | ok v n => simp [TIRes.ofSpec]
+  | invalid => simp [TIRes.ofSpec, TIRes.mkErr]
+  | range n => exact absurd h (hnr n)
+
+/-- the same with base 0 -/
+theorem toInteger_unchecked_auto_eq (t : IntTy) (h8 : 8 ≤ t.bits) (ws : Bool) (s : List Nat)
+    (hbytes : ∀ c ∈ s, c < 256) (hnr : ∀ n, Spec.parseAuto t ws s ≠ .range n) :
+    toIntegerNC t ws s 0 = .ok (TIRes.ofSpec (Spec.parseAuto t ws s)) := by
+  apply toIntegerNC_of t ws s 0 _ (toInteger_auto_eq t h8 ws s hbytes)
+  cases h : Spec.parseAuto t ws s with
+  | ok v n => simp [TIRes.ofSpec]
+  | invalid => simp [TIRes.ofSpec, TIRes.mkErr]
+  | range n => exact absurd h (hnr n)
+
+/-- non-vacuity: `"-128"` as `int8_t` and `" 0x7fffffff"` with base 0 as `int` satisfy the hypothesis -/
+example : (∀ n, Spec.parse ⟨8, true⟩ false [45, 49, 50, 56] 10 ≠ .range n) ∧
+    toIntegerNC ⟨8, true⟩ false [45, 49, 50, 56] 10 = .ok ⟨4, .none, -128⟩ := by
+  refine ⟨?_, by rfl⟩
+  have e : Spec.parse ⟨8, true⟩ false [45, 49, 50, 56] 10 = .ok (-128) 4 := by rfl
+  intro n h; rw [e] at h; cases h
+example : toIntegerNC ⟨32, true⟩ true [32, 48, 120, 55, 102, 102, 102, 102, 102, 102, 102] 0
+    = .ok ⟨11, .none, 2147483647⟩ := by rfl
+
+/-- outside the class nothing is promised: `"256"` as `uint8_t` wraps to 0 (the checked configuration reports
+    `overflow`), `"2147483648"` as `int` is a signed overflow (undefined behaviour: the model's `.error`) -/
+theorem toInteger_unchecked_outside :
+    Spec.parse ⟨8, false⟩ false [50, 53, 54] 10 = .range 3 ∧
+    toIntegerNC ⟨8, false⟩ false [50, 53, 54] 10 = .ok ⟨3, .none, 0⟩ ∧
+    toInteger ⟨8, false⟩ false [50, 53, 54] 10 = .ok (.mkErr .overflow) ∧
+    Spec.parse ⟨32, true⟩ false [50, 49, 52, 55, 52, 56, 51, 54, 52, 57] 10 = .range 10 ∧
+    toIntegerNC ⟨32, true⟩ false [50, 49, 52, 55, 52, 56, 51, 54, 52, 57] 10 = .error (.pre "signed integer overflow") := by
+  refine ⟨by rfl, by rfl, by rfl, by rfl, by rfl⟩
 
 /-- `from_chars` for every input whose digits denote a representable value or that has no digits:
     value, `ptr` and `ec` are those of [charconv.from.chars].  The excluded class
